@@ -140,3 +140,44 @@ prop('C16', title='Issued certificates are well-formed, correctly named and veri
                 'signature lengths, start times at year and leap boundaries, naive/UTC/offset datetimes: well-formed element (independent '
                 'walker), name, content, content type, exact validity instants, verification, key locator, parse-back.',
      level_note='datetime/strftime and the signature primitives are assumed.', technique=T_BOUNDED)
+
+prop('C15', title='Keychain contents, defaults and signers stay consistent over any history', level='fault_enumeration',
+     bounded=[('bounded.c15', 'run', SH)],
+     level_text='Deciding check (bounded): class invariants of the keychain / Identity / Key Mapping views, default invariants, cascade to '
+                'private-key files and signer correctness as run-time contracts after every operation on a real KeychainSqlite3 + TpmFile, '
+                'over operation histories up to a stated length, close/reopen, and one injected storage failure at every step.',
+     level_note='SQL trigger semantics live in SQL text executed by SQLite: no contract on the Python functions can express them '
+                '(DESIGN.md 6/C15); get_signer resolution is the only deductive fragment planned.',
+     technique=T_BOUNDED)
+prop('C17', title='Prefix registration speaks the forwarder management protocol correctly', level='proof',
+     bounded=[('bounded.c17', 'run', SH)],
+     level_text='Unbounded proof for NfdRegister.register / unregister against assumed contracts of the app, clock, sleep and semaphore: '
+                'exactly one command naming the prefix, sent while holding the semaphore, SignatureTime strictly after the previous '
+                'command, True iff the reply decodes to status 200, every other reply / exception gives False, nothing raised; '
+                'parse_response raise-set and field flow. Command layout, legacy front-end, concurrency and auto-registration are bounded.',
+     level_note='asyncio (Semaphore, sleep advances the ms clock by >= 1), the application and the clock are assumed models.',
+     technique=T_MIXED)
+prop('C18', title='State-vector sync merges monotonically and announces exactly when needed', level='proof',
+     bounded=[('bounded.c18', 'run', SH)],
+     level_text='Unbounded proof over state vectors as maps on opaque node ids and received vectors with ANY number of entries: '
+                'sync_handler ignores malformed / over-claiming vectors entirely, otherwise local\' = entry-wise max and the callback '
+                'fires exactly once iff some entry was raised, nothing raised; aggregate = entry-wise max into the aggregate. Timer '
+                'decisions, publishing and emitted vectors are a bounded stand-in on a virtual clock.',
+     level_note='Quantified obligations (maps, exists) are discharged by z3 with MBQI; a false one may come back unknown (reported '
+                'as undecided, never as holding). Wall-clock arithmetic is opaque.',
+     technique=T_MIXED)
+prop('C19', title='Segmented fetch yields every segment once, in order, tolerating bounded loss', level='proof',
+     bounded=[('bounded.c19', 'run', SH)],
+     level_text='Unbounded proof (loop invariants on the retry loop and the segment loop, ghost counters): each Interest is re-expressed '
+                'until exactly retry_times attempts, timeout exactly then, Nack / ValidationFailure end the fetch at once, the k-th '
+                'content yielded answers the request for segment k, the fetch stops exactly at the final block or for an unsegmented '
+                'object, a discovery answer that is not segment 0 restarts at 0.',
+     level_note='Assumed (property C03): express_interest returns Data matching the Interest or raises. Simulated producers with '
+                'loss patterns are the bounded stand-in.',
+     technique=T_MIXED)
+prop('C20', title='Client configuration resolves with environment over file over platform default', level='exploration',
+     bounded=[('bounded.c20', 'run', SH)],
+     level_text='Deciding check (bounded): real directory trees with HOME / environment redirected: all combinations of the three '
+                'environment variables x candidate files x key subsets x location kinds x default-directory existence; 225 transport URIs.',
+     level_note='os.path, ConfigParser and urlparse are the real ones; a deductive contract over an abstract file system is planned.',
+     technique=T_BOUNDED)
